@@ -128,10 +128,10 @@ func (v *VerifClient) Written() [][]byte {
 	}
 }
 
-func (v *VerifClient) Id() string              { return v.C.id }
-func (v *VerifClient) Group() *group.Group     { return v.C.group }
-func (v *VerifClient) Username() string        { return v.C.username }
-func (v *VerifClient) Permissions() []string   { return append([]string(nil), v.C.permissions...) }
+func (v *VerifClient) Id() string                { return v.C.id }
+func (v *VerifClient) Group() *group.Group       { return v.C.group }
+func (v *VerifClient) Username() string          { return v.C.username }
+func (v *VerifClient) Permissions() []string     { return append([]string(nil), v.C.permissions...) }
 func (v *VerifClient) GroupClient() group.Client { return v.C }
 
 // QueuedActions summarises the not yet handled actions, in queue order.
